@@ -457,6 +457,11 @@ def run(ctx, rep):
                     okslice = True
         if not okslice:
             probs.append("rows are not consecutive slices of width len(vocab)")
+        # both are done for EVERY vector: straight-line statements of the loop body, not under another condition
+        if good_test and not any(t is st for t in good_test for st in lp.body):
+            probs.append("the divisibility test is not applied to every vector (it sits under another condition)")
+        if rows and not any(inside[r] is st for r in rows for st in lp.body):
+            probs.append("the number of rows is not recomputed for every vector")
         if good_test and sl:
             # the test must precede the reshape in the loop body
             order = [id(x) for x in ast.walk(lp)]
